@@ -243,7 +243,7 @@ def rule_inputs(rng):
     keys = rng.sample(["a", "b", "c", "d"], n)
     pat, ev, bs = {}, {}, {}
     for nm, k in zip(names, keys):
-        v = value(rng, rng.choice("nnnssbbao"))
+        v = value(rng, rng.choice("nnnssbbaoz"))      # z: null (a variable bound to null is still a declared variable of the script)
         if isinstance(v, str) and v.startswith("?"):
             v = "s" + v
         pat[k] = "?" + nm
